@@ -16,7 +16,15 @@ type intrinsicFn func(ex *Exec, fn *ssa.Function, args []Value) Value
 
 type lineScanner struct {
 	lines []string
+	sym   [][]*Term // lines with symbolic bytes (then lines is unused)
 	pos   int
+}
+
+func (s *lineScanner) n() int {
+	if s.sym != nil {
+		return len(s.sym)
+	}
+	return len(s.lines)
 }
 
 var vpFileType = types.NewNamed(types.NewTypeName(0, nil, "vpEmbeddedFile", nil), types.NewStruct(nil, nil), nil)
@@ -249,12 +257,25 @@ func (ex *Exec) sprintf(format Value, rest Value) StringV {
 	}
 	var nargs []any
 	if sl, ok := rest.(SliceV); ok {
+		var vals []Value
+		allNative := true
 		for i := 0; i < sl.len; i++ {
-			a, ok := ex.nativeArg(ex.load(ex.kid(sl.arr, sl.off+i)))
+			v := ex.load(ex.kid(sl.arr, sl.off+i))
+			vals = append(vals, v)
+			a, ok := ex.nativeArg(v)
 			if !ok {
-				return StringV{s: "<fmt:" + f.str() + ">"}
+				allNative = false
 			}
 			nargs = append(nargs, a)
+		}
+		if !allNative {
+			if ex.spec > 0 {
+				abortMerge()
+			}
+			if r, ok := ex.symFormat(f.str(), vals); ok {
+				return r
+			}
+			return StringV{s: "<fmt:" + f.str() + ">"}
 		}
 	}
 	return StringV{s: fmt.Sprintf(f.str(), nargs...)}
@@ -718,6 +739,10 @@ func init() {
 		},
 		"strconv.Atoi": func(ex *Exec, fn *ssa.Function, a []Value) Value {
 			if s, ok := a[0].(StringV); ok && !s.concrete() {
+				if m, ok := ex.signedDecimalOf(s); ok {
+					// the decimal text of a 64-bit value produced on this path reads back as that value
+					return TupleV{m, IfaceV{}}
+				}
 				// symbolic text: interpret the library's own code
 				return ex.callBody(fn, a, nil)
 			}
@@ -882,6 +907,17 @@ func init() {
 		},
 		"bufio.NewScanner": func(ex *Exec, fn *ssa.Function, a []Value) Value {
 			iv := ex.ifaceOf(a[0])
+			if bs, ok := ex.readerBytes(iv); ok {
+				// a harness reader: line scanning over its (possibly symbolic) bytes; lines are
+				// at most bufio.MaxScanTokenSize long here, so the delivery schedule is immaterial
+				l := ex.newLoc(types.NewStruct(nil, nil))
+				lines := ex.symLines(bs)
+				if lines == nil {
+					lines = [][]*Term{}
+				}
+				ex.lineScanners[l] = &lineScanner{sym: lines, pos: -1}
+				return l
+			}
 			op, ok := iv.v.(Opaque)
 			if !ok || iv.t != vpFileType {
 				ex.unsupported("bufio.Scanner over a reader that is not an embedded file")
@@ -903,12 +939,15 @@ func init() {
 				ex.unsupported("bufio.Scanner of unknown origin")
 			}
 			s.pos++
-			return ex.st.Bool(s.pos < len(s.lines))
+			return ex.st.Bool(s.pos < s.n())
 		},
 		"(*bufio.Scanner).Text": func(ex *Exec, fn *ssa.Function, a []Value) Value {
 			s := ex.lineScanners[a[0].(*Loc)]
-			if s == nil || s.pos < 0 || s.pos >= len(s.lines) {
+			if s == nil || s.pos < 0 || s.pos >= s.n() {
 				return StringV{}
+			}
+			if s.sym != nil {
+				return ex.mkString(s.sym[s.pos])
 			}
 			return StringV{s: s.lines[s.pos]}
 		},
